@@ -358,6 +358,20 @@ def store_size(st):
     return sum(c * (len(m) + 1) for v in st.values() for m, c in v.items())
 
 
+def _ss_worker(args):
+    """everything C03 says about one small-scope program"""
+    import random
+    label, src, extra = args
+    K, cap = extra
+    ex = examine(src, K, cap, random.Random(label))
+    fl = []
+    for f in ex["failing"]:
+        f = dict(f)
+        f["what"] = "[small scope] " + str(f.get("what"))
+        fl.append(f)
+    return fl, {str(ex["status"]): 1, "paths": ex["paths"], "checks": ex["checks"]}
+
+
 def run(ctx):
     vlib.import_pymwp()
     K = ctx.n(2, 3)
@@ -415,6 +429,10 @@ def run(ctx):
                 model_cases.append((f"{lab}\n{src}", d, True))
             if len(samples) < 3 and ex["status"] == "ok" and ex["vectors"] and "'while'" in txt:
                 samples.append({"src": src, "paths": ex["paths"], "valid_vectors": ex["vectors"]})
+    import streams
+    ssf, ssinfo = streams.small_scope_map(ctx, _ss_worker, 500, extra=(K, cap))
+    failing += ssf
+    tot["small_scope"] = ssinfo
     # cases outside the fragment / ill-fitting paths: "no execution" on both sides
     for lab, src in NEGATIVE:
         f = read_typed(src)
@@ -444,7 +462,7 @@ def run(ctx):
         mism.append(f"generator degenerate: {status} {kinds}")
     distinct = len({repr(d["typed"]) for d in recs if d and not d["infinite"] and d["index"] >= 1 and
                     any(t in repr(d["typed"]) for t in ("'while'", "'for'", "'if'"))})
-    stats = {"evaluations": tot["checks"], "distinct_nontrivial": distinct,
+    stats = {"evaluations": tot["checks"] + tot["small_scope"]["outcomes"].get("checks", 0), "distinct_nontrivial": distinct,
              "rule": f"generated constant-free C functions (copies, + - *, if/else, while/do-while, for with guard outside / inside the body, nested) "
                      f"in strict mode; every valid choice vector x every path (iteration counts 0..{K}; all paths when <= {cap}, else {cap} random) x every "
                      "variable: matrix column and bound triple against the exact final value; evaluations = (vector, path, variable) shape checks; "
@@ -453,7 +471,7 @@ def run(ctx):
              "programs_with_all_paths": tot["exhaustive"], "paths_skipped_value_too_big": tot["toobig"],
              "nonstrict_guard_in_body_checks": tot["nonstrict_guard_checks"],
              "growth_pairs": tot["growth_pairs"], "growth_checks": tot["growth_checks"], "statement_kinds": kinds,
-             "coq_exec_cases": len(exec_cases), "coq_model_cases": len(model_cases), "K": K, "cap": cap}
+             "coq_exec_cases": len(exec_cases), "coq_model_cases": len(model_cases), "K": K, "cap": cap, "small_scope": tot["small_scope"]}
     return {"failing": failing, "corr_mismatch": mism, "stats": stats}
 
 
